@@ -112,6 +112,18 @@ def _calls(op, st, dtype, upper):
         if f == "op_matmul":
             other = bind.build(st["argterm"], dtype)
             return [("torch.matmul(other, op)", torch.matmul(other, op)), ("other @ op", other @ op)]
+        if f == "isclose_nan":
+            # the same NaN on both sides (dense classes only: structured classes cannot hold an arbitrary NaN entry)
+            from linear_operator.operators import DenseLinearOperator
+
+            if not isinstance(op, DenseLinearOperator):
+                return []
+            Xn = X.clone()
+            Xn.reshape(-1)[1] = float("nan")
+            opn = DenseLinearOperator(Xn.clone())
+            return [("torch.isclose(op, X, equal_nan=True)", torch.isclose(opn, Xn, equal_nan=True).to(dtype)),
+                    ("torch.isclose(X, op, equal_nan=True)", torch.isclose(Xn, opn, equal_nan=True).to(dtype)),
+                    ("op.isclose(X, equal_nan=True)", opn.isclose(Xn, equal_nan=True).to(dtype))]
         if f == "isclose":
             return [("torch.isclose(op, X, 0.0, 0.5)", torch.isclose(op, X, 0.0, 0.5).to(dtype)),
                     ("torch.isclose(op, X, rtol=0.0, atol=0.5)", torch.isclose(op, X, rtol=0.0, atol=0.5).to(dtype))]
@@ -174,6 +186,17 @@ def _replay(beh):
     for st in beh["steps"]:
         f, kind, v = st["func"], st["kind"], st["variant"]
         try:
+            if kind == "second_refused":
+                X = bind.tensor(st["arg"], dtype) + 3.0
+                call = {"torch.div": lambda: torch.div(X, op), "torch.linalg.solve": lambda: torch.linalg.solve(X, op), "Tensor.div": lambda: X / op}[f]
+                try:
+                    call()
+                    fails.append((f, v, "%s(Tensor, op) returned a result although the function is registered for the operator as first operand only" % f))
+                except (NotImplementedError, TypeError):
+                    pass
+                except Exception as e:  # noqa
+                    fails.append((f, v, "%s(Tensor, op) raised %s instead of NotImplementedError / TypeError" % (f, type(e).__name__)))
+                continue
             if kind == "unregistered":
                 args = {"cumsum": (0,), "flip": ((0,),)}.get(f, ())
                 try:
